@@ -11,7 +11,7 @@ for d in seeded/*/; do
   s=$(basename "$d"); pid=${s%%-*}
   if [ -n "$sel" ]; then case " $sel " in *" $pid "*) ;; *) continue;; esac; fi
   git -C "$wt" checkout -q -- . 2>/dev/null; git -C "$wt" clean -fdq -e _build -e _scratch 2>/dev/null
-  if ! git -C "$wt" apply "$d/patch.diff" 2>/dev/null; then echo "$s patch-does-not-apply" >> "$log"; continue; fi
+  if ! git -C "$wt" apply "$PWD/$d/patch.diff" 2>/dev/null; then echo "$s patch-does-not-apply" >> "$log"; continue; fi
   out=$(VERIF_REPO="$wt" timeout 3000 python3 tools/check.py "$pid" --tier quick 2>&1 | tail -6)
   if echo "$out" | grep -q "^VIOLATION property=$pid "; then echo "$s caught: $(echo "$out" | grep VIOLATION | head -1)" >> "$log"
   else echo "$s MISSED: $(echo "$out" | tail -1)" >> "$log"; fi
